@@ -19,7 +19,7 @@ PROPERTY = "C18"
 LEVEL = "exploration"
 RULE = ("operation sequences (up to 40) over a pool seeded with a single- or multi-residue molecule built from a spec, "
         "the molecules handed out by a System for a generated file, and the molecules stored by an Alignment: copy, "
-        "deep_copy, residue / atom views (indexing and iteration), Molecule.atoms / Residue.atoms copies, move, move_to, "
+        "deep_copy, copy / deep_copy / Molecule() with the residues of another pooled molecule, residue / atom views (indexing and iteration), Molecule.atoms / Residue.atoms copies, move, move_to, "
         "rotate, assignment of positions, velocities (array or None), atom numbers, residue numbers, names (deep copies "
         "and unshared originals), assignment through views, assignment of a position read from another object, one "
         "array assigned to two objects. Non-trivial = a copy followed by operations on both the copy and its source on a "
@@ -40,7 +40,8 @@ FIELDS = ["pos", "vel", "atomid", "resid"]
 def op_strategy(draw):
     k = draw(st.sampled_from(["copy", "copy", "deep_copy", "view_res", "view_atom", "atoms_list", "move", "move_to",
                               "rotate", "set_pos", "set_vel", "set_ids", "set_resids", "rename", "atom_set",
-                              "iter_set", "share_pos", "same_array", "inplace", "inplace", "read_center", "read_center"]))
+                              "iter_set", "share_pos", "same_array", "inplace", "inplace", "read_center", "read_center",
+                              "copy_from", "copy_from", "construct"]))
     a = draw(st.integers(0, 30))
     b = draw(st.integers(0, 30))
     return [k, a, b, draw(gen.SEEDS), draw(st.sampled_from(FIELDS)), draw(st.booleans())]
@@ -250,6 +251,36 @@ def check(case):
                     else:
                         pool.append(Entry(new, e.kind, ids, top_group=e.top_group if e.kind == "atom" else None,
                                           origin=ei))
+            elif kind in ("copy_from", "construct") and e.kind == "mol" and len(pool) < 14:
+                # a.copy(b.residues) / a.deep_copy(b.residues) / Molecule(top, b.residues): the topology of a with the
+                # coordinates and numbers of b, isolated from both
+                src = pool[b % len(pool)]
+                names_ok = src.kind == "mol" and \
+                    [(model.cells[c]["name"], model.cells[c]["resname"]) for c in src.cells] == \
+                    [(model.cells[c]["name"], model.cells[c]["resname"]) for c in e.cells]
+                if names_ok:
+                    residues = src.obj.residues
+                    if seed % 3 == 0:
+                        residues = list(residues)
+                    if kind == "construct":
+                        from vlib.build import write_spec_itp
+                        from gaddlemaps.components import MoleculeTop
+                        spec_names = [(an, rn) for rn, ri, names in spec["residues"] for an in names]
+                        if [(model.cells[c]["name"], model.cells[c]["resname"]) for c in src.cells] != spec_names:
+                            compare(model, pool, step, kind)
+                            continue
+                        new = lib("Molecule", Molecule, MoleculeTop(write_spec_itp(spec)), residues)
+                        tg = new_top()
+                    elif flag:
+                        new = lib("deep_copy", o.deep_copy, residues)
+                        tg = new_top()
+                    else:
+                        new = lib("copy", o.copy, residues)
+                        tg = e.top_group
+                    ids = model.clone(src.cells)
+                    pos_of = {c: i for i, c in enumerate(src.cells)}
+                    groups = [[ids[pos_of[c]] for c in g] for g in src.groups]
+                    pool.append(Entry(new, "mol", ids, groups, tg, origin=b % len(pool)))
             elif kind == "view_res" and e.kind == "mol" and len(pool) < 14:
                 k = b % len(e.groups)
                 pool.append(Entry(o.residues[k], "res", list(e.groups[k]), owner=ei))
